@@ -57,6 +57,27 @@ def Walk.dirAt (w : Walk) (q : Loc) : Bool := w.at q.comps = some .dir
 
 def Walk.existsAt (w : Walk) (q : Loc) : Bool := (w.fileAt q).isSome || w.dirAt q
 
+/-! ### walks of real directory trees, and the kernel's path walk -/
+
+/-- What every directory walk of a real tree satisfies: no path is reported twice, the root is not
+reported, and the parent directory of every reported entry is itself reported as a directory. -/
+def Walk.IsTree (w : Walk) : Prop :=
+  (w.map (·.1)).Nodup ∧ (∀ e ∈ w, e.1 ≠ []) ∧ (∀ e ∈ w, w.at e.1.dropLast = some .dir)
+
+/-- Non-empty proper prefixes of a path (its ancestors below the root). -/
+def ancestors (c : Path) : List Path := (List.range (c.length - 1)).map (fun i => c.take (i + 1))
+
+/-- The kernel's path walk on the tree a walk describes: an entry is reached only through
+directories (`stat("file/x")` = ENOTDIR even if some stale entry were recorded below the file). -/
+def Walk.posixAt (w : Walk) (c : Path) : Option Kind :=
+  if (ancestors c).all (fun a => decide (w.at a = some .dir)) then w.at c else none
+
+def Walk.posixFileAt (w : Walk) (q : Loc) : Option Bytes :=
+  if q.dirOnly then none else
+  match w.posixAt q.comps with
+  | some (.file b) => some b
+  | _ => none
+
 /-! ### C12: top layer wins -/
 
 /-- Stored bytes of the highest-priority layer that contains the file. -/
@@ -73,6 +94,9 @@ def topExists : List Walk → Loc → Option Nat
     match topExists rest q with
     | some i => some (i + 1)
     | none => if w.existsAt q then some 0 else none
+
+/-- The same search with the kernel's path walk in every layer. -/
+def topFilePosix (ws : List Walk) (q : Loc) : Option Bytes := ws.reverse.findSome? (fun w => w.posixFileAt q)
 
 /-- Declarative reading of `topFile`: layer `i` has the file and no higher layer has it. -/
 def IsTopFile (ws : List Walk) (q : Loc) (b : Bytes) : Prop :=
